@@ -156,9 +156,9 @@ def showErr : OpErr → String
   | .platypus => "err:platypus" | .arity => "err:arity" | .fuel => "err:fuel"
 
 /-- `[counts[i] / float(sum(counts)) for i in ...]` -/
-def mmNewProbs (counts : List Nat) : List F := counts.map fun c => Float.ofNat c / Float.ofNat counts.sum
+def mmNewProbs (counts : List Nat) : List F := mmProbs Float.ofNat counts
 /-- `[1.0 / len(variators) for _ in ...]` -/
-def mmInitProbs (n : Nat) : List F := List.replicate n (1.0 / Float.ofNat n)
+def mmInitProbs (n : Nat) : List F := mmInitProbsG 1.0 Float.ofNat n
 def showMM (st : MMState F) : String :=
   s!"{st.next} {st.lastUpdate} {st.probs.length} {" ".intercalate (st.probs.map showFlt)}"
 
